@@ -104,8 +104,19 @@ class PatternWaiter(asyncio.Protocol):
 
     def data_received(self, data):
         spawn = self.expecter.spawn
-        s = spawn._decoder.decode(data)
-        spawn._log(s, "read")
+        try:
+            s = spawn._decoder.decode(data)
+            spawn._log(s, "read")
+        except Exception as exc:
+            # Bytes that are not text in the object's encoding, or a log
+            # file that fails: the blocking call raises this to its caller.
+            # Give it to the awaited call instead of losing it in the event
+            # loop (and leaving the caller to sit out its timeout).
+            if self.fut.done():
+                raise
+            self.expecter.errored()
+            self.error(exc)
+            return
 
         if self.fut.done():
             spawn._before.write(s)
